@@ -1,6 +1,7 @@
 """Storage-model validation: random operation sequences (puts, gets, prefix / reverse iterators
-created before and consumed after writes, batches with delete-then-put of one key, batches aborted by an
-exception, reopen) on SimDB and on the real LevelDB engine of electrumx.server.storage in a scratch
+created before and consumed after writes, batches with delete-then-put of one key, batches left by an
+exception - with and without plyvel's transaction flag -, reopen) on the simulated plyvel module and on the
+real one, both underneath the LevelDB class of electrumx.server.storage, the real one in a scratch
 directory outside /repo and /verif; all results must be identical.  Also cross-checks RefIndex against
 the independently written RefIndex2.  Usage: simdb_vs_plyvel.py [nseq]"""
 import os
@@ -24,9 +25,19 @@ def main():
     real_os = storage.os
     world = types.SimpleNamespace(sim=Sim(Chooser(0), preempt=False), store=seams.SimDBStore())
     world.sim.loop = types.SimpleNamespace(_ready=(), _stopping=False)
-    SimDB = seams.make_simdb_class(world, storage.Storage)
     LevelDB = storage.LevelDB
     LevelDB.import_module()
+    real_plyvel = LevelDB.module
+    fake_plyvel = seams.make_fake_plyvel(world)
+
+    class SimDB(LevelDB):            # the same ElectrumX class on the simulated module
+        module = fake_plyvel
+
+        def __init__(self, name, for_sync):
+            self.is_new = name not in world.store.dbs
+            self.for_sync = for_sync or self.is_new
+            self.open(name, create=self.is_new)
+    assert LevelDB.module is real_plyvel and not hasattr(real_plyvel, '_world')
     scratch = tempfile.mkdtemp(prefix='verif-plyvel-')
     cwd = os.getcwd()
     bad = 0
@@ -72,9 +83,10 @@ def main():
                         if rng.random() < 0.3:      # delete then put of one key, and the reverse
                             ops.append(('p', k, b'z') if ops[-1][0] == 'd' else ('d', k, None))
                     abort = rng.random() < 0.25
+                    raw = rng.random() < 0.3      # plyvel's own default: transaction=False
                     for db in (a, b):
                         try:
-                            with db.write_batch() as batch:
+                            with (db.db.write_batch() if raw else db.write_batch()) as batch:
                                 for kind, k, v in ops:
                                     if kind == 'd':
                                         batch.delete(k)
